@@ -127,7 +127,7 @@ def run(ctx: vlib.Ctx):
                                            "C17_local_alias_binding_refuted"], kernels=["K42", "K44"])
     ctx.theorems("props/C17_imports.vo", ["C17_imports_cover_partial", "C17_imports_cover_refuted", "C17_visited_imports", "C17_chain_root_is_package",
                                            "C17_chain_root_resolves"], kernels=["K46"])
-    ctx.coqchk(["VerifProps.C17_closed", "VerifProps.C17_cleanid", "VerifProps.C17_typeref", "VerifProps.C17_imports"])
+    ctx.coqchk(["VerifProps.C17_closed", "VerifProps.C17_cleanid", "VerifProps.C17_typeref", "VerifProps.C17_imports"], timeout=2400)
     ctx.trusted += [
         "harness/c17_translate.py: Python ast -> Closed.v AST (fail-closed; interning of names is injective by construction); "
         "the abstraction itself: expressions = tree of loaded names, attribute access / calls / operators never bind names",
@@ -185,14 +185,16 @@ def run(ctx: vlib.Ctx):
 
     # ---- 2+3. run the schemas in worker processes
     thorough = not ctx.quick()
-    n_grammar = ctx.budget(120, 2600)
-    n_ident = ctx.budget(40, 400)
-    jobs = 4 if ctx.quick() else 12
+    # (resource rule of the shared machine: at most 6 concurrent workers / coqc also in the thorough tier; budgets sized for that:
+    #  two thorough runs with 2600 / 1300 grammar schemas were killed by the machine-wide OOM killer in round 6)
+    n_grammar = ctx.budget(120, 500)
+    n_ident = ctx.budget(40, 120)
+    jobs = 4 if ctx.quick() else 6
     res_g, skip_g = run_family(ctx, "grammar", n_grammar, ctx.budget(24, 40), jobs, ctx.budget(10, 25), 8.0)
     res_i, skip_i = run_family(ctx, "identity", n_ident, ctx.budget(12, 20), jobs, ctx.budget(10, 20), 8.0)
-    res_l, skip_l = run_family(ctx, "latename", ctx.budget(40, 600), ctx.budget(12, 20), jobs, ctx.budget(10, 25), 8.0)
-    res_m, skip_m = run_family(ctx, "multimod", ctx.budget(50, 600), ctx.budget(10, 16), jobs, ctx.budget(10, 25), 8.0)
-    res_d, skip_d = run_family(ctx, "defaults", ctx.budget(30, 400), ctx.budget(10, 16), jobs, ctx.budget(10, 25), 8.0)
+    res_l, skip_l = run_family(ctx, "latename", ctx.budget(40, 150), ctx.budget(12, 20), jobs, ctx.budget(10, 25), 8.0)
+    res_m, skip_m = run_family(ctx, "multimod", ctx.budget(50, 150), ctx.budget(10, 16), jobs, ctx.budget(10, 25), 8.0)
+    res_d, skip_d = run_family(ctx, "defaults", ctx.budget(30, 100), ctx.budget(10, 16), jobs, ctx.budget(10, 25), 8.0)
     skip_i = skip_i + skip_l + skip_d + skip_m
     if skip_g or skip_i:
         ctx.notes.append(f"schemas skipped because a call did not return in time (library loops on some inputs; not a C17 matter): grammar {skip_g}, identity {skip_i}")
@@ -319,7 +321,7 @@ def coq_programs(ctx, programs, attr_cases, all_res):
         files.append((f"c17_closed_{ctx.seed}_{si // shard}", txt))
         meta.append((chunk, ok_idx, [(fam, idx) for fam, idx, reads, sets in attr_cases if (fam, idx) in keys], info))
     coq_programs._seen = set()
-    jobs = 6 if ctx.quick() else 12
+    jobs = 6
     res = coqc_many(files, timeout=900, jobs=jobs)
     # green shards: the kernel accepted `shard_closed`; for the others compile the diagnosis variant to learn which cases fail
     redo = [k for k, (ok, out) in enumerate(res) if not ok]
